@@ -40,7 +40,7 @@ func init() {
 	})
 	Register(&Rule{
 		Name:  "R-LOAD-VALID",
-		Props: []string{"C06", "C05", "C04"},
+		Props: []string{"C06", "C05", "C04", "C01", "C19"},
 		Min:   7,
 		Doc: "LoadSidecar's success return must-pass the magic compare, the version compare, the CRC32C compare over the body and a checked BitmapFromBytes; every error return yields a nil sidecar; " +
 			"in LoadOrCreateSidecar* a loaded sidecar is returned only through equality of ChunkSize, FileSize and FileID with the caller's arguments (or after being discarded)",
@@ -782,115 +782,194 @@ func runLoadValid(c *Ctx) {
 	}
 	_ = info
 	// the CRC covers everything before the trailer and the trailer is the last 4 bytes: crc read after bitmap (codec order is checked by sidecar codec symmetry below)
-	// identity check in the loaders
-	for _, name := range []string{"transfer.LoadOrCreateSidecar", "transfer.LoadOrCreateSidecarWithFallback$loadValid"} {
-		f := p.Func(name)
-		if f == nil {
-			c.MissingAnchor(name)
-			continue
+	// identity check in the loaders. A loaded sidecar is followed from LoadSidecar (or from a closure of the loader that returns
+	// one: its returns are summarised by the comparisons they all passed) to the returns of the exported loaders.
+	fields := []string{"ChunkSize", "FileSize", "FileID"}
+	summaries := map[*FuncInfo]map[string]bool{}
+	var identityFacts func(f *FuncInfo, exported bool) map[string]bool
+	identityFacts = func(f *FuncInfo, exported bool) map[string]bool {
+		if s, done := summaries[f]; done && !exported {
+			return s
 		}
 		fi := f.Info()
-		var scObj types.Object
-		f.CFG().Calls(func(r NodeRef, call *ast.CallExpr) {
-			if g := p.CalleeInfo(fi, call); g == ls {
-				if as, ok := r.Node().(*ast.AssignStmt); ok && len(as.Lhs) == 2 {
-					scObj = ObjOf(fi, as.Lhs[0])
-				}
-			}
-		})
-		if scObj == nil {
-			c.Unknown("identity/"+name, f.Pos(), "cannot find `sc, err := LoadSidecar(path)`")
-			continue
-		}
-		// parameters (of f or, for the closure, of the enclosing function)
+		name := f.Name
+		// parameters in scope (of f and its enclosing functions): the caller's values
 		paramNames := map[string]bool{}
 		for g := f; g != nil; g = g.Parent {
+			if g.Type.Params == nil {
+				continue
+			}
 			for _, fld := range g.Type.Params.List {
 				for _, nm := range fld.Names {
 					paramNames[nm.Name] = true
 				}
 			}
 		}
-		ids := &PassSpec{}
-		ids.Vias = []Via{
-			{Cond: func(g *FuncInfo, e ast.Expr) (string, bool, bool) {
-				be, ok := ast.Unparen(e).(*ast.BinaryExpr)
-				if !ok || (be.Op != token.NEQ && be.Op != token.EQL) {
-					return "", false, false
-				}
-				for _, pair := range [][2]ast.Expr{{be.X, be.Y}, {be.Y, be.X}} {
-					sel, ok := ast.Unparen(pair[0]).(*ast.SelectorExpr)
-					if !ok || ObjOf(g.Info(), sel.X) != scObj {
-						continue
-					}
-					if id, ok := ast.Unparen(pair[1]).(*ast.Ident); ok && paramNames[id.Name] {
-						if _, isVar := ObjOf(g.Info(), id).(*types.Var); isVar {
-							return "safe:" + sel.Sel.Name, be.Op == token.EQL, true
+		// loaded objects: defined by LoadSidecar(...) or by a closure of this loader that has a summary
+		type origin struct {
+			node ast.Node
+			init map[string]bool
+		}
+		loaded := map[types.Object]origin{}
+		f.CFG().EachNode(func(r NodeRef) {
+			var as *ast.AssignStmt
+			switch v := r.Node().(type) {
+			case *ast.AssignStmt:
+				as = v
+			}
+			if as == nil || len(as.Rhs) != 1 || len(as.Lhs) < 1 {
+				return
+			}
+			call, ok := ast.Unparen(as.Rhs[0]).(*ast.CallExpr)
+			if !ok {
+				return
+			}
+			o := ObjOf(fi, as.Lhs[0])
+			if o == nil {
+				return
+			}
+			if g := p.CalleeInfo(fi, call); g == ls {
+				loaded[o] = origin{as, map[string]bool{}}
+				return
+			}
+			if id, ok := ast.Unparen(call.Fun).(*ast.Ident); ok {
+				if v, ok := ObjOf(fi, id).(*types.Var); ok {
+					if g := p.ClosureOfVar(v); g != nil && g != f {
+						if sum := identityFacts(g, false); sum != nil {
+							loaded[o] = origin{as, sum}
 						}
 					}
 				}
-				return "", false, false
-			}},
+			}
+		})
+		if len(loaded) == 0 {
+			summaries[f] = nil
+			return nil
 		}
-		// "no loaded sidecar survives" also makes the return safe for every field: sc = nil, or the load failed
-		for _, fld := range []string{"ChunkSize", "FileSize", "FileID"} {
-			fld := fld
-			// a predicate method on the loaded sidecar: `sc.matches(fileID, size, chunk)` is summarised by the fields it
-			// compares with its parameters on every path that returns true
-			ids.Vias = append(ids.Vias, Via{Cond: func(g *FuncInfo, e ast.Expr) (string, bool, bool) {
-				call, ok := ast.Unparen(e).(*ast.CallExpr)
-				if !ok {
-					return "", false, false
-				}
-				sel, ok := ast.Unparen(call.Fun).(*ast.SelectorExpr)
-				if !ok || ObjOf(g.Info(), sel.X) != scObj {
-					return "", false, false
-				}
-				callee := p.CalleeInfo(g.Info(), call)
-				if callee == nil {
-					return "", false, false
-				}
-				idx, ok := eqSummary(callee)[fld]
-				if !ok || idx >= len(call.Args) {
-					return "", false, false
-				}
-				if id, ok := ast.Unparen(call.Args[idx]).(*ast.Ident); ok && paramNames[id.Name] {
-					return "safe:" + fld, true, true
-				}
-				return "", false, false
-			}})
-			ids.Vias = append(ids.Vias,
-				Via{Stmt: func(g *FuncInfo, n ast.Node) (string, bool) {
-					if as, ok := n.(*ast.AssignStmt); ok && len(as.Lhs) == 1 && len(as.Rhs) == 1 && ObjOf(g.Info(), as.Lhs[0]) == scObj && types.ExprString(as.Rhs[0]) == "nil" {
-						return "safe:" + fld, true
+		var result map[string]bool
+		nr := 0
+		for scObj, org := range loaded {
+			scObj, org := scObj, org
+			ids := &PassSpec{}
+			ids.Vias = []Via{
+				{Cond: func(g *FuncInfo, e ast.Expr) (string, bool, bool) {
+					be, ok := ast.Unparen(e).(*ast.BinaryExpr)
+					if !ok || (be.Op != token.NEQ && be.Op != token.EQL) {
+						return "", false, false
 					}
-					return "", false
+					for _, pair := range [][2]ast.Expr{{be.X, be.Y}, {be.Y, be.X}} {
+						sel, ok := ast.Unparen(pair[0]).(*ast.SelectorExpr)
+						if !ok || ObjOf(g.Info(), sel.X) != scObj {
+							continue
+						}
+						if id, ok := ast.Unparen(pair[1]).(*ast.Ident); ok && paramNames[id.Name] {
+							if _, isVar := ObjOf(g.Info(), id).(*types.Var); isVar {
+								return "safe:" + sel.Sel.Name, be.Op == token.EQL, true
+							}
+						}
+					}
+					return "", false, false
 				}},
-				Via{Cond: func(g *FuncInfo, e ast.Expr) (string, bool, bool) {
-					if o, nilOnTrue, ok := NilTest(g.Info(), e); ok && isErrorType(o.Type()) {
-						return "safe:" + fld, !nilOnTrue, true
+			}
+			for _, fld := range fields {
+				fld := fld
+				// what the provider closure already established
+				if org.init[fld] {
+					ids.Vias = append(ids.Vias, Via{Stmt: func(g *FuncInfo, n ast.Node) (string, bool) {
+						if n == org.node {
+							return "safe:" + fld, true
+						}
+						return "", false
+					}})
+				}
+				// a predicate method on the loaded sidecar
+				ids.Vias = append(ids.Vias, Via{Cond: func(g *FuncInfo, e ast.Expr) (string, bool, bool) {
+					call, ok := ast.Unparen(e).(*ast.CallExpr)
+					if !ok {
+						return "", false, false
+					}
+					sel, ok := ast.Unparen(call.Fun).(*ast.SelectorExpr)
+					if !ok || ObjOf(g.Info(), sel.X) != scObj {
+						return "", false, false
+					}
+					callee := p.CalleeInfo(g.Info(), call)
+					if callee == nil {
+						return "", false, false
+					}
+					idx, ok := eqSummary(callee)[fld]
+					if !ok || idx >= len(call.Args) {
+						return "", false, false
+					}
+					if id, ok := ast.Unparen(call.Args[idx]).(*ast.Ident); ok && paramNames[id.Name] {
+						return "safe:" + fld, true, true
 					}
 					return "", false, false
 				}})
-		}
-		nr := 0
-		for _, b := range f.CFG().Blocks {
-			ret, ok := IsReturnExit(b)
-			if !ok || len(ret.Results) == 0 || ObjOf(fi, ret.Results[0]) != scObj {
-				continue
+				// "no loaded sidecar survives": sc = nil, or the load failed / the provider said no
+				ids.Vias = append(ids.Vias,
+					Via{Stmt: func(g *FuncInfo, n ast.Node) (string, bool) {
+						if as, ok := n.(*ast.AssignStmt); ok && len(as.Lhs) == 1 && len(as.Rhs) == 1 && ObjOf(g.Info(), as.Lhs[0]) == scObj && types.ExprString(as.Rhs[0]) == "nil" {
+							return "safe:" + fld, true
+						}
+						return "", false
+					}},
+					Via{Cond: func(g *FuncInfo, e ast.Expr) (string, bool, bool) {
+						if o, nilOnTrue, ok := NilTest(g.Info(), e); ok && isErrorType(o.Type()) {
+							return "safe:" + fld, !nilOnTrue, true
+						}
+						if o, nilOnTrue, ok := NilTest(g.Info(), e); ok && o == scObj {
+							return "safe:" + fld, nilOnTrue, true
+						}
+						return "", false, false
+					}})
 			}
-			nr++
-			ref := NodeRef{b, len(b.Nodes) - 1}
-			for _, fld := range []string{"ChunkSize", "FileSize", "FileID"} {
-				ok := ids.Passed(f, ref, "safe:"+fld)
-				c.Check(ok, fmt.Sprintf("identity/%s#%d/%s", name, nr, fld), ret.Pos(), "loaded sidecar returned only when "+fld+" equals the caller's value (or after being discarded)",
-					"a sidecar loaded from disk is returned without comparing its "+fld+" with the file being received: metadata of another file/size/chunking would be trusted",
-					"facts here: "+strings.Join(ids.PassedList(f, ref), ", "))
+			for _, b := range f.CFG().Blocks {
+				ret, ok := IsReturnExit(b)
+				if !ok || len(ret.Results) == 0 || ObjOf(fi, ret.Results[0]) != scObj {
+					continue
+				}
+				nr++
+				ref := NodeRef{b, len(b.Nodes) - 1}
+				here := map[string]bool{}
+				for _, fld := range fields {
+					if ids.Passed(f, ref, "safe:"+fld) {
+						here[fld] = true
+					}
+				}
+				if exported {
+					for _, fld := range fields {
+						c.Check(here[fld], fmt.Sprintf("identity/%s#%d/%s", name, nr, fld), ret.Pos(), "loaded sidecar returned only when "+fld+" equals the caller's value (or after being discarded)",
+							"a sidecar loaded from disk is returned without comparing its "+fld+" with the file being received: metadata of another file/size/chunking would be trusted",
+							"facts here: "+strings.Join(ids.PassedList(f, ref), ", "))
+					}
+				}
+				if result == nil {
+					result = here
+				} else {
+					for k := range result {
+						if !here[k] {
+							delete(result, k)
+						}
+					}
+				}
 			}
 		}
-		if nr == 0 {
-			c.Unknown("identity/"+name, f.Pos(), "no return of the loaded sidecar found")
+		if exported && nr == 0 {
+			c.Unknown("identity/"+name, f.Pos(), "no return of a loaded sidecar found")
 		}
+		if result == nil {
+			result = map[string]bool{}
+		}
+		summaries[f] = result
+		return result
+	}
+	for _, name := range []string{"transfer.LoadOrCreateSidecar", "transfer.LoadOrCreateSidecarWithFallback"} {
+		f := p.Func(name)
+		if f == nil {
+			c.MissingAnchor(name)
+			continue
+		}
+		identityFacts(f, true)
 	}
 	// sidecar on-disk layout: Flush writer vs LoadSidecar reader (field order and widths)
 	if fl := p.Func("transfer.(*Sidecar).Flush"); fl != nil {
